@@ -378,6 +378,17 @@ theorem formats_agree_fold_xor (xs : List V3) :
     xs.foldr (mvBin mv_xor2) V3.zero = xs.foldr (fun x acc => (bp8v_xor2 (.ofV3 x) (.ofV3 acc)).toV3) V3.zero := by
   rw [← mv_xor_fold, ← bp8_xor_fold]
 
+/-! ## De Morgan duality for any number of operands -/
+/-- De Morgan for operand lists of ANY length (the 1..4-operand statements of `Props/C12.lean` are instances) -/
+theorem de_morgan_and_any (xs : List V3) : specNot (specAnd xs) = specOr (xs.map specNot) := by
+  induction xs with
+  | nil => rfl
+  | cons x xs ih => rw [specAnd_cons, de_morgan_and2, ih, List.map_cons, ← specOr_cons]
+theorem de_morgan_or_any (xs : List V3) : specNot (specOr xs) = specAnd (xs.map specNot) := by
+  induction xs with
+  | nil => rfl
+  | cons x xs ih => rw [specOr_cons, de_morgan_or2, ih, List.map_cons, ← specAnd_cons]
+
 /-- non-vacuity / sanity: RISE and FALL give a positive pulse under AND in either order and grouping -/
 example : specAnd [⟨true, false, true⟩, ⟨false, true, true⟩, V3.one] = ⟨false, false, true⟩ := by decide
 
